@@ -99,4 +99,16 @@ PLAN = {
         'assumptions': ['registered constructors follow the constructor protocol (assumed)', 'merge flattening (flatten_mapping, SafeConstructor.construct_mapping) is covered by a BOUNDED stand-in only: the node-graph invariant it needs is hereditary through recursion and its nested quantifiers did not discharge within budget'],
         'explanation': 'BaseConstructor.construct_mapping / construct_pairs / construct_sequence under discharged contracts (only mapping/sequence nodes accepted, unhashable keys -> ConstructorError, one entry per item, caches only grow); merge precedence rules searched exhaustively on small node graphs incl. shared merge sources (bounded, labelled)',
     },
+    'C18': {
+        'fronts': ['pyvc.fronts.effects:run_c18'], 'bounded': [],
+        'assumptions': ["the stream returns at most n units from read(n) (assumed contract of the caller's stream)", 'the codec consumes at most what it is given (assumed)',
+                        'the token builders (fetch_*) that sit between need_more_tokens and the reader are not under contract: the end-to-end bound "two refill blocks beyond the document" is NOT derived, only its three mechanisms are proved'],
+        'explanation': 'Reader.update reads nothing while enough characters are buffered and update_raw performs exactly one read of at most 4096 units; simple-key candidates expire after one line / 1024 characters and more tokens are fetched only while the queue is empty or a candidate is pending; the API generators yield one item per iteration inside try/finally dispose',
+    },
+    'C20': {
+        'fronts': [], 'bounded': [],
+        'assumptions': ['cost of built-ins (list.pop(0), str +=, join) and of the parser/composer/constructor/representer recursion is outside', 'the emitter event queue bound (need_events) is not under contract',
+                        'the empirical "calls at most double" measurement is not run as a decider'],
+        'explanation': 'mechanisms that keep the work linear: pending simple keys are bounded (one line / 1024 characters), the reader drops the consumed prefix on every refill and reads nothing while enough is buffered; every scanning loop under contract has a variant (len(S) - index), i.e. consumes a character per iteration',
+    },
 }
